@@ -36,6 +36,28 @@ func grpcgunNetAliases(p *packages.Package, fn *ast.FuncDecl) map[types.Object]s
 			}
 		}
 	}
+	// range variables: $key / $value of the n-th range statement
+	nr := 0
+	ast.Inspect(fn.Body, func(x ast.Node) bool {
+		if r, ok := x.(*ast.RangeStmt); ok && r.Tok == token.DEFINE {
+			nr++
+			suffix := ""
+			if nr > 1 {
+				suffix = fmt.Sprint(nr)
+			}
+			if id, ok := r.Key.(*ast.Ident); ok {
+				if o := p.TypesInfo.Defs[id]; o != nil {
+					al[o] = "$key" + suffix
+				}
+			}
+			if id, ok := r.Value.(*ast.Ident); ok {
+				if o := p.TypesInfo.Defs[id]; o != nil {
+					al[o] = "$value" + suffix
+				}
+			}
+		}
+		return true
+	})
 	k := 0
 	if fn.Type.Params != nil {
 		for _, f := range fn.Type.Params.List {
@@ -120,6 +142,18 @@ func grpcgunNetDescribe(p *packages.Package, fn *ast.FuncDecl, al map[types.Obje
 		return "*" + rec(x.X)
 	case *ast.ParenExpr:
 		return "(" + rec(x.X) + ")"
+	case *ast.TypeAssertExpr:
+		return rec(x.X) + ".(" + ggSrc(p, x.Type) + ")"
+	case *ast.CompositeLit:
+		var es []string
+		for _, el := range x.Elts {
+			if kv, ok := el.(*ast.KeyValueExpr); ok {
+				es = append(es, ggSrc(p, kv.Key)+": "+rec(kv.Value))
+			} else {
+				es = append(es, rec(el))
+			}
+		}
+		return ggSrc(p, x.Type) + "{" + strings.Join(es, ", ") + "}"
 	}
 	return ggSrc(p, e)
 }
@@ -298,6 +332,123 @@ func grpcgunNetExtra(t *tr, gp, sp *packages.Package) string {
 		})
 	}
 	def("scalar fields of the plain gun's configuration as the scenario `NewGun($0 = conf)` fills them", "scenarioConfCopies", "List (String × String)", ggPairs(copies))
+
+	// ---- scenario gun: what a failing step does to its shot, and how long the request variables live
+	onErr, reqVars, stepReset, deferred, errOrder := "unrecognised", "unrecognised", "unrecognised", "unrecognised", "unrecognised"
+	if sh := ggMethod(sp, "Gun", "shoot"); sh != nil {
+		al := grpcgunNetAliases(sp, sh)
+		ast.Inspect(sh.Body, func(x ast.Node) bool {
+			r, ok := x.(*ast.RangeStmt)
+			if !ok {
+				return true
+			}
+			// err := g.shootStep(…); if err != nil { <what> }
+			var errObj types.Object
+			for _, st := range r.Body.List {
+				if as, ok := st.(*ast.AssignStmt); ok && len(as.Rhs) == 1 && len(ggCallsSuffix(sp, as.Rhs[0], ".shootStep")) == 1 && len(as.Lhs) == 1 {
+					errObj = ggObj(sp, as.Lhs[0])
+				}
+				if ifs, ok := st.(*ast.IfStmt); ok && errObj != nil {
+					if be, ok := ifs.Cond.(*ast.BinaryExpr); ok && be.Op == token.NEQ && ggObj(sp, be.X) == errObj && ggSrc(sp, be.Y) == "nil" {
+						var what []string
+						for _, b := range ifs.Body.List {
+							switch y := b.(type) {
+							case *ast.ReturnStmt:
+								var rs []string
+								for _, e := range y.Results {
+									if ggObj(sp, e) == errObj {
+										rs = append(rs, "the step's error")
+									} else {
+										rs = append(rs, ggSrc(sp, e))
+									}
+								}
+								what = append(what, "return "+strings.Join(rs, ", "))
+							case *ast.BranchStmt:
+								what = append(what, y.Tok.String())
+							}
+						}
+						onErr = "range " + grpcgunNetDescribe(sp, sh, al, r.X, r.Pos(), 0) + ": " + strings.Join(what, ";")
+					}
+				}
+			}
+			return false
+		})
+		// templateVars["request"] = <fresh map made in this function>
+		ast.Inspect(sh.Body, func(x ast.Node) bool {
+			as, ok := x.(*ast.AssignStmt)
+			if !ok || len(as.Lhs) != 1 || len(as.Rhs) != 1 {
+				return true
+			}
+			if ix, ok := as.Lhs[0].(*ast.IndexExpr); ok && ggSrc(sp, ix.Index) == `"request"` {
+				reqVars = grpcgunNetDescribe(sp, sh, al, ix.X, as.Pos(), 0) + `["request"] = ` + grpcgunNetDescribe(sp, sh, al, as.Rhs[0], as.Pos(), 0)
+			}
+			return true
+		})
+	}
+	if st := ggMethod(sp, "Gun", "shootStep"); st != nil {
+		al := grpcgunNetAliases(sp, st)
+		aps := ggCallsSuffix(sp, st.Body, ".templ.Apply")
+		invs := ggCallsSuffix(sp, st.Body, ".InvokeRpc")
+		// requestVars[step.Name] = <fresh map>, before the templates are applied
+		ast.Inspect(st.Body, func(x ast.Node) bool {
+			as, ok := x.(*ast.AssignStmt)
+			if !ok || len(as.Lhs) != 1 || len(as.Rhs) != 1 || len(aps) != 1 {
+				return true
+			}
+			if ix, ok := as.Lhs[0].(*ast.IndexExpr); ok && strings.HasSuffix(ggSrc(sp, ix.Index), ".Name") {
+				stepReset = fmt.Sprintf("%s[%s] = %s; before templ.Apply=%v", grpcgunNetDescribe(sp, st, al, ix.X, as.Pos(), 0),
+					grpcgunNetDescribe(sp, st, al, ix.Index, as.Pos(), 0), grpcgunNetDescribe(sp, st, al, as.Rhs[0], as.Pos(), 0), as.Pos() < aps[0].Pos())
+			}
+			return true
+		})
+		// the sample is reported by a deferred function installed before anything can fail
+		for i, s := range st.Body.List {
+			if d, ok := s.(*ast.DeferStmt); ok {
+				rep := len(ggCallsSuffix(sp, d.Call, ".Aggr.Report")) == 1
+				first := true
+				for _, prev := range st.Body.List[:i] {
+					if _, isRet := prev.(*ast.ReturnStmt); isRet {
+						first = false
+					}
+					ast.Inspect(prev, func(x ast.Node) bool {
+						if _, isRet := x.(*ast.ReturnStmt); isRet {
+							first = false
+						}
+						return true
+					})
+				}
+				deferred = fmt.Sprintf("defer reports the sample=%v; no return before it=%v", rep, first)
+				break
+			}
+		}
+		// templ.Apply's error is returned before the call is made
+		if len(aps) == 1 && len(invs) == 1 {
+			var errObj types.Object
+			ast.Inspect(st.Body, func(x ast.Node) bool {
+				if as, ok := x.(*ast.AssignStmt); ok && len(as.Rhs) == 1 && as.Rhs[0] == ast.Expr(aps[0]) && len(as.Lhs) == 2 {
+					errObj = ggObj(sp, as.Lhs[1])
+				}
+				return true
+			})
+			for _, s := range st.Body.List {
+				ifs, ok := s.(*ast.IfStmt)
+				if !ok || ifs.Pos() < aps[0].Pos() || ifs.Pos() > invs[0].Pos() || errObj == nil {
+					continue
+				}
+				if be, ok := ifs.Cond.(*ast.BinaryExpr); ok && be.Op == token.NEQ && ggObj(sp, be.X) == errObj && len(ifs.Body.List) == 1 {
+					if _, isRet := ifs.Body.List[0].(*ast.ReturnStmt); isRet {
+						errOrder = "templ.Apply; if its error != nil return; … InvokeRpc"
+					}
+					break
+				}
+			}
+		}
+	}
+	def("what the loop of the scenario `shoot` over the steps does when a step returns an error", "scenarioOnStepError", "String", ggQuote(onErr))
+	def("the per-shot request variables: made afresh by every `shoot`", "scenarioRequestVars", "String", ggQuote(reqVars))
+	def("a step's own variables are replaced by an empty map when the step begins (before its templates are rendered)", "scenarioStepVarsReset", "String", ggQuote(stepReset))
+	def("how `shootStep` reports its sample", "scenarioSampleReport", "String", ggQuote(deferred))
+	def("a templating error ends the step before any call is made", "scenarioTemplateErrorOrder", "String", ggQuote(errOrder))
 
 	// ---- templater: the loop over the metadata
 	ap := ggMethod(sp, "TextTemplater", "Apply")
